@@ -88,7 +88,7 @@ theorem graph_parseCommand (D : Desc) (s : St) (i : SvcIn) :
     (parseCommand D s i).1.state ∈ [s.state, .searchCommand, .flushWait, .error, .waitReadAck, .updateCommandState] := by
   simp [parseCommand, prepareSearchCommand]; crunch
 theorem graph_update (D : Desc) (s : St) : (updateCommand D s).1.state ∈ [s.state, .parseCommandChar, .searchCommand] := by
-  simp [updateCommand, prepareSearchCommand]; crunch
+  simp [updateCommand, updateAdvance, updateLane, prepareSearchCommand]; crunch
 theorem graph_waitRead (s : St) (i : SvcIn) : (waitReadAcknowledge s i).1.state ∈ [s.state, .searchCommand, .error] := by
   simp [waitReadAcknowledge, prepareSearchCommand]; crunch
 theorem graph_search (D : Desc) (s : St) : (searchCommand D s).1.state ∈ [s.state, .commandFound, .commandNotFound, .error] := by
